@@ -102,8 +102,10 @@ def _run(tape):
 
 def run_index(i, seed, tier, emit):
     mod = sys.modules[__name__]
-    t = Tape(seed, prefix=[0])
-    emit(safe_run_tape(mod, t), t)
+    # seeded random scenarios (all behaviours, both modes, consumption patterns, external kill)
+    for k in range(25):
+        t = Tape(seed * 31 + k, prefix=[0])
+        emit(safe_run_tape(mod, t), t)
     # systematic placement on this seed's configuration: every position x every worker fault, then pairs
     for pos in range(13):
         for kind in range(5):
